@@ -297,6 +297,16 @@ class TestPoolStream:
             with pool.connect(PoolTestService, cmd) as svc:
                 assert svc.get_pid() != pid1
 
+    def test_interrupted_borrow_discards(self) -> None:
+        """Leaving the block by KeyboardInterrupt -> worker discarded, wherever the call was."""
+        with WorkerPool(max_idle=4) as pool:
+            cmd = _pool_worker_cmd()
+            with pytest.raises(KeyboardInterrupt), pool.connect(PoolTestService, cmd) as svc:
+                svc.get_pid()
+                raise KeyboardInterrupt
+            assert pool.idle_count == 0
+            assert pool.metrics.discards == 1
+
 
 class TestPoolLifecycle:
     """Pool lifecycle tests."""
